@@ -86,8 +86,9 @@ theorem noUses_kw {s : Stmt} (h : noUses s = true) : (s.kw == "uses") = false :=
     simp only [noUses, Bool.and_eq_true, bne_iff_ne, ne_eq] at h
     simp [Stmt.kw, h.1]
 
-/-- `X` is `B` plus the modules `ds`, loaded after `B`; `dk` are their rows of the module table. -/
-structure DevExt (B X : Registry) (ds : List Mod) (dk : KeyMap) : Prop where
+/-- `X` is `B` plus the modules `ds`, loaded after `B`; `dk` are their rows of the module table
+(everything but the restriction on `uses`). -/
+structure DevExtCore (B X : Registry) (ds : List Mod) (dk : KeyMap) : Prop where
   mods : X.mods = B.mods ++ ds
   modules : X.modules = B.modules ++ dk
   /-- no submodules (restriction of the present proof) -/
@@ -107,18 +108,21 @@ structure DevExt (B X : Registry) (ds : List Mod) (dk : KeyMap) : Prop where
   ownerEq : ∀ m ∈ B.mods, X.owner m = B.owner m
   /-- the new modules contain nothing but header statements, imports and deviations -/
   devOnly : ∀ d ∈ ds, DeviationOnly d.stmt
-  /-- no `uses` in `B` (restriction of the present proof: the fuel of the grouping search) -/
+
+/-- `DevExtCore` plus: no `uses` in `B` (restriction of the proof of `frame_across_modules`: the fuel
+of the grouping search). -/
+structure DevExt (B X : Registry) (ds : List Mod) (dk : KeyMap) : Prop extends DevExtCore B X ds dk where
   noUsesB : ∀ m ∈ B.mods, noUses m.stmt = true
 
 section
-variable {B X : Registry} {ds : List Mod} {dk : KeyMap} (h : DevExt B X ds dk)
+variable {B X : Registry} {ds : List Mod} {dk : KeyMap} (h : DevExtCore B X ds dk)
 include h
 
 /-- `id` is not the sequence number of a new module. -/
 def Old (ds : List Mod) (id : Nat) : Prop := ∀ d ∈ ds, d.seq ≠ id
 
 omit h in
-theorem Old.of_mem {B X : Registry} {ds : List Mod} {dk : KeyMap} (h : DevExt B X ds dk) {m : Mod} (hm : m ∈ B.mods) :
+theorem Old.of_mem {B X : Registry} {ds : List Mod} {dk : KeyMap} (h : DevExtCore B X ds dk) {m : Mod} (hm : m ∈ B.mods) :
     Old ds m.seq := fun d hd e => h.seqFresh m hm d hd e.symm
 
 theorem byId_ext {id : Nat} (hid : Old ds id) : X.byId id = B.byId id := by
